@@ -39,7 +39,7 @@ def shards(tier, seed):
 
 def universe(seed, uid):
     rng = core.rng_for(seed, PROP, 'uni%d' % uid)
-    return gen.rand_universe(rng, gen.Opts(attrs=False, text_alphabet='any', nested_arrays=0.15, sub_names=True), uid=uid)
+    return gen.rand_universe(rng, gen.Opts(attrs=False, text_alphabet='any', nested_arrays=0.15, sub_names=True, digits=True), uid=uid)
 
 
 def make_protocols(conf, validator):
@@ -113,7 +113,7 @@ def run_call(R, C, md, args, rets, driver, repro):
         if not gen.veq(ir, at, sent, B.from_spyne(at, o), an, d):
             ok = False
             R.violation('argument %s differs: %s' % (an, '; '.join(d)[:300]), repro,
-                        mech=context_mech(C, md, 'dictdoc_nested_array_collapsed' if nested_in(ir, at) else 'arg_differs:%s:%s' % (conf.fmt, mech_diff(at, d)), 'none'), config=cfg, tspec=at)
+                        mech=context_mech(C, md, 'arg_differs:%s:%s' % (conf.fmt, mech_diff(at, d)), 'none'), config=cfg, tspec=at)
     try:
         rdoc = codec.loads(out)
         dec = codec.response(md, rdoc)
@@ -127,7 +127,7 @@ def run_call(R, C, md, args, rets, driver, repro):
         if not gen.veq(ir, rt, sent, got, 'ret%d' % i, d):
             ok = False
             R.violation('return value %d differs: %s' % (i, '; '.join(d)[:300]), dict(repro, response=repr(out[:600])),
-                        mech=context_mech(C, md, 'dictdoc_nested_array_collapsed' if nested_in(ir, rt) else 'ret_differs:%s:%s' % (conf.fmt, mech_diff(rt, d)), 'none'), config=cfg, tspec=rt)
+                        mech=context_mech(C, md, 'ret_differs:%s:%s' % (conf.fmt, mech_diff(rt, d)), 'none'), config=cfg, tspec=rt)
     if ok:
         nn = any(a is not None for a in args) or any(r is not None for r in rets)
         if nn:
@@ -164,15 +164,11 @@ def nested_in(ir, t, seen=None):
 
 
 def context_mech(C, md, base, side):
-    """known-mechanism contexts: nested arrays collapse in dict documents; MessagePackRpc cannot do bare styles"""
+    """known-mechanism context: MessagePackRpc serves wrapped methods only - with a bare or out-bare method neither its requests nor its
+    responses work at all (the whole configuration is the finding, whatever the symptom)"""
     ir, conf = C['ir'], C['conf']
     if conf.fmt == 'msgpackrpc' and md['style'] != 'wrapped':
         return 'msgpackrpc_bare_styles_unsupported'
-    if side == 'none':
-        return base
-    ts = [t for _, t in md['args']] if side == 'in' else (md['returns'] if side == 'out' else [t for _, t in md['args']] + md['returns'])
-    if any(nested_in(ir, t) for t in ts):
-        return 'dictdoc_nested_array_collapsed'
     return base
 
 
@@ -195,9 +191,14 @@ def run_universe(R, seed, uid, tier):
     for fmt, iw, ca, kb in confs:
         conf = refdict.Conf(fmt, iw, ca, kb)
         validator = rng.choice((None, 'soft'))
+        # with the wrappers kept the wrapper key is a type marker: the polymorphic setting makes both sides honour it
+        poly = (not iw) and ca == 'dict' and fmt != 'msgpackrpc' and rng.random() < .5
         try:
             B = gen.Built(ir)
             inp, outp = make_protocols(conf, validator)
+            if poly:
+                inp.polymorphic = outp.polymorphic = True
+                R.count('polymorphic_apps')
             app = B.app(inp, outp)
             server = ServerBase(app)
         except Exception as e:
@@ -224,10 +225,18 @@ def run_universe(R, seed, uid, tier):
                             R.skip('object not fully populated (positional form needs every member)')
                             continue
                     else:
-                        args = [gen.gen_value(rng, ir, t, top=(md['style'] == 'bare'), alphabet='any') for _, t in md['args']]
-                        rets = [gen.gen_value(rng, ir, t, top=(md['style'] != 'wrapped'), alphabet='any') for t in md['returns']]
+                        args = [gen.gen_value(rng, ir, t, top=(md['style'] == 'bare'), alphabet='any', subclass_ok=poly) for _, t in md['args']]
+                        rets = [gen.gen_value(rng, ir, t, top=(md['style'] != 'wrapped'), alphabet='any', subclass_ok=poly) for t in md['returns']]
+                    if poly:
+                        # the key of a bare message is the method's name, not a type marker: the message object itself is of the declared class
+                        def exact(t, v):
+                            return not (isinstance(v, dict) and 'ref' in t and v.get('__class__', t['ref']) != t['ref'])
+                        if md['style'] == 'bare' and not all(exact(t, v) for (_, t), v in zip(md['args'], args)):
+                            args = [gen.gen_value(rng, ir, t, top=True, alphabet='any') for _, t in md['args']]
+                        if md['style'] != 'wrapped' and not all(exact(t, v) for t, v in zip(md['returns'], rets)):
+                            rets = [gen.gen_value(rng, ir, t, top=True, alphabet='any') for t in md['returns']]
                     driver = 'wsgi' if k == ncalls - 1 else 'server'
-                    run_call(R, C, md, args, rets, driver, {'seed': seed, 'uid': uid, 'call': k})
+                    run_call(R, C, md, args, rets, driver, {'seed': seed, 'uid': uid, 'call': k, 'polymorphic': poly})
 
 
 def fully_populated(ir, t, v):
